@@ -152,8 +152,8 @@ fn cmpop_name(op: &ast::CompareOpKind) -> &'static str {
     }
 }
 
-fn dump_args(first: Option<&ast::Expr>, args: &[ast::CallArg], out: &mut Vec<String>) -> bool {
-    let mut pos: Vec<&ast::Expr> = first.into_iter().collect();
+fn dump_args(tag: &str, name: &str, first: Option<&ast::Expr>, args: &[ast::CallArg], out: &mut Vec<String>) -> bool {
+    let mut pos: Vec<&ast::Expr> = vec![];
     let mut kws: Vec<(&str, &ast::Expr)> = vec![];
     for a in args {
         match a {
@@ -162,9 +162,13 @@ fn dump_args(first: Option<&ast::Expr>, args: &[ast::CallArg], out: &mut Vec<Str
             _ => return false,
         }
     }
-    out.push("call".into());
+    out.push(tag.into());
+    out.push(name.into());
     out.push(pos.len().to_string());
     out.push(kws.len().to_string());
+    if let Some(e) = first {
+        dump_expr(e, out);
+    }
     for e in pos {
         dump_expr(e, out);
     }
@@ -173,6 +177,13 @@ fn dump_args(first: Option<&ast::Expr>, args: &[ast::CallArg], out: &mut Vec<Str
         dump_expr(e, out);
     }
     true
+}
+
+fn dump_opt(e: &Option<ast::Expr>, out: &mut Vec<String>) {
+    match e {
+        Some(e) => dump_expr(e, out),
+        None => out.push("_".into()),
+    }
 }
 
 fn dump_expr(e: &ast::Expr, out: &mut Vec<String>) {
@@ -230,17 +241,49 @@ fn dump_expr(e: &ast::Expr, out: &mut Vec<String>) {
             }
         }
         ast::Expr::Call(c) => {
-            let ok = matches!(&c.expr, ast::Expr::Var(v) if v.id == "kw") && dump_args(None, &c.args, out);
+            let ok = match &c.expr {
+                ast::Expr::Var(v) => dump_args("call", v.id, None, &c.args, out),
+                _ => false,
+            };
             if !ok {
                 out.push("X".into());
             }
         }
         ast::Expr::Filter(f) => {
-            let ok = f.name == "kwf" && f.expr.is_some() && dump_args(f.expr.as_ref(), &f.args, out);
+            let ok = f.expr.is_some() && dump_args("filt", f.name, f.expr.as_ref(), &f.args, out);
             if !ok {
                 out.push("X".into());
             }
         }
+        ast::Expr::Test(t) => {
+            if !dump_args("test", t.name, Some(&t.expr), &t.args, out) {
+                out.push("X".into());
+            }
+        }
+        ast::Expr::GetAttr(g) => {
+            out.push("ga".into());
+            out.push(g.name.to_string());
+            dump_expr(&g.expr, out);
+        }
+        ast::Expr::GetItem(g) => {
+            out.push("gi".into());
+            dump_expr(&g.expr, out);
+            dump_expr(&g.subscript_expr, out);
+        }
+        ast::Expr::Slice(sl) => {
+            out.push("sl".into());
+            dump_expr(&sl.expr, out);
+            dump_opt(&sl.start, out);
+            dump_opt(&sl.stop, out);
+            dump_opt(&sl.step, out);
+        }
+        ast::Expr::IfExpr(i) => {
+            out.push("if".into());
+            dump_expr(&i.test_expr, out);
+            dump_expr(&i.true_expr, out);
+            dump_opt(&i.false_expr, out);
+        }
+        #[allow(unreachable_patterns)]
         _ => out.push("X".into()),
     }
 }
@@ -267,6 +310,10 @@ fn mk_env(mode: &str) -> Environment<'static> {
     });
     env.add_function("kw", kw_impl);
     env.add_filter("kwf", kw_impl);
+    env.add_template("inc_a.txt", "[a:{{ v0 is defined }}]").unwrap();
+    env.add_template("inc_b.txt", "[b]").unwrap();
+    env.add_template("base.txt", "<{% block b %}base{% endblock %}|{% block c %}c{% endblock %}>").unwrap();
+    env.add_template("mac.txt", "{% macro f(x, y=7) %}f({{ x }},{{ y }}){% endmacro %}{% set g = 3 %}").unwrap();
     env
 }
 
@@ -283,6 +330,8 @@ struct Case {
     mode: String,
     src: String,
     spans: Vec<(usize, usize)>,
+    /// `src` is a whole template (statement stream) instead of an expression
+    tmpl: bool,
 }
 
 impl Case {
@@ -292,7 +341,7 @@ impl Case {
         } else {
             self.spans.iter().map(|(a, b)| format!("{}-{}", a, b)).collect::<Vec<_>>().join(",")
         };
-        format!("{} {} {}", self.mode, hex(self.src.as_bytes()), spans)
+        format!("{} {} {} {}", self.mode, hex(self.src.as_bytes()), spans, if self.tmpl { "t" } else { "e" })
     }
 
     fn variant(&self, mask: u64) -> String {
@@ -412,7 +461,7 @@ fn run_case(c: &Case, rng: &mut Rng) -> String {
     let mut hoist = String::new();
     let mut diffs = vec![];
     for m in &ms {
-        let src = format!("{{{{ {} }}}}", c.variant(*m));
+        let src = if c.tmpl { c.variant(*m) } else { format!("{{{{ {} }}}}", c.variant(*m)) };
         let r = guarded(|| {
             let t = match env.template_from_str(&src) {
                 Ok(t) => t,
@@ -436,6 +485,18 @@ fn run_case(c: &Case, rng: &mut Rng) -> String {
         if o != lit {
             diffs.push(format!("{:x}={}", m, o));
         }
+    }
+    if c.tmpl {
+        return format!(
+            "{}\t-\t{}\t{}\t{}\t{}\t{}\t{}\t-\t-\t-\t-",
+            c.key(),
+            load,
+            k,
+            ms.len(),
+            lit,
+            hoist,
+            if diffs.is_empty() { "-".to_string() } else { diffs.join(";") }
+        );
     }
     // the real front end on the all-literal source
     let srclit = c.variant(0);
@@ -500,7 +561,14 @@ enum G {
     Bin(&'static str, Box<G>, Box<G>),
     Chain(Box<G>, Vec<(&'static str, G)>),
     Call(Vec<G>, Vec<(&'static str, G)>),
-    Filt(Box<G>, Vec<(&'static str, G)>),
+    /// `subject|name(args, kwargs)`
+    Filt(&'static str, Box<G>, Vec<G>, Vec<(&'static str, G)>),
+    /// `subject is [not] name(args)`
+    Test(&'static str, bool, Box<G>, Vec<G>),
+    GetItem(Box<G>, Box<G>),
+    GetAttr(Box<G>, &'static str),
+    Slice(Box<G>, Option<Box<G>>, Option<Box<G>>, Option<Box<G>>),
+    If(Box<G>, Box<G>, Option<Box<G>>),
 }
 
 const INTS: [&str; 27] = [
@@ -511,11 +579,13 @@ const INTS: [&str; 27] = [
     "170141183460469231731687303715884105729", "340282366920938463463374607431768211455",
     "0", "1", "2", "1", "0", "5",
 ];
-const FLOATS: [&str; 14] = [
+const FLOATS: [&str; 24] = [
     "0.0", "1.0", "0.5", "1.5", "2.5", "2.0", "1e10", "1e100", "0.1", "3.14", "1e-7",
-    "9007199254740993.0", "1.7976931348623157e308", "1e400",
+    "9007199254740993.0", "1.7976931348623157e308", "1e400", "0.3", "123456.789", "1e15", "1e16", "1e21",
+    "1e-5", "0.0001", "5e-324", "2.2250738585072014e-308", "7.0",
 ];
-const STRS: [&str; 16] = [
+const STRS: [&str; 23] = [
+    "\"a\\\"b\"", "\"it's\"", "'it\\'s'", "\"line\\nbreak\"", "\"tab\\t\"", "\"back\\\\slash\"", "\"\\u00e9\\u0001\"",
     "\"\"", "\"a\"", "\"ab\"", "\"abc\"", "\"b\"", "\"A\"", "\"0\"", "\"1\"", "\"10\"", "\" \"",
     "\"a b\"", "\"True\"", "\"none\"", "\"abcdefghijklmnopqrstuvwxyz\"", "'\u{e9}'", "\"1.0\"",
 ];
@@ -556,8 +626,14 @@ fn numish(g: &G) -> bool {
     match g {
         G::Lit(s) => !(s.starts_with('"') || s.starts_with('\'') || s.starts_with('[') || s.starts_with('(') || s.starts_with('{')),
         G::Var(_) => true,
-        G::List(_) | G::Tuple(_) | G::Map(_) | G::Call(..) | G::Filt(..) => false,
-        G::Not(_) | G::Neg(_) | G::Chain(..) => true,
+        G::List(_) | G::Tuple(_) | G::Map(_) | G::Call(..) | G::GetItem(..) | G::GetAttr(..) | G::Slice(..) => false,
+        G::Filt(name, a, args, _) => match *name {
+            "length" | "abs" | "int" | "round" => true,
+            "default" => numish(a) && args.iter().all(numish),
+            _ => false,
+        },
+        G::If(t, _, f) => numish(t) && f.as_ref().map_or(true, |f| numish(f)),
+        G::Not(_) | G::Neg(_) | G::Chain(..) | G::Test(..) => true,
         G::Bin(op, a, b) => match *op {
             "-" | "/" | "//" | "%" | "**" | "==" | "!=" | "<" | "<=" | ">" | ">=" | "in" | "not in" => true,
             "~" => false,
@@ -640,6 +716,9 @@ fn gen(rng: &mut Rng, depth: u32) -> G {
         return gen_lit(rng);
     }
     let d = depth - 1;
+    if rng.chance(1, 5) {
+        return gen_unfolded(rng, d);
+    }
     match rng.below(100) {
         0..=29 => {
             let op = *rng.pick(&ARITH);
@@ -689,8 +768,72 @@ fn gen(rng: &mut Rng, depth: u32) -> G {
         }
         _ => {
             let kws = (0..1 + rng.below(2)).map(|_| (*rng.pick(&KWNAMES), gen_lit(rng))).collect();
-            G::Filt(Box::new(gen(rng, d.min(2))), kws)
+            G::Filt("kwf", Box::new(gen(rng, d.min(2))), vec![], kws)
         }
+    }
+}
+
+const SMALLIDX: [&str; 8] = ["0", "1", "2", "3", "5", "1", "0", "2"];
+const ATTRS: [&str; 4] = ["a", "b", "zz", "a"];
+
+fn gen_container(rng: &mut Rng, d: u32) -> G {
+    match rng.below(10) {
+        0..=3 => G::Lit(rng.pick(&CONTAINERS).to_string()),
+        4 | 5 => G::Lit(rng.pick(&STRS).to_string()),
+        6 => G::List((0..1 + rng.below(4)).map(|_| gen_lit(rng)).collect()),
+        7 => gen_dup_map(rng, d),
+        _ => gen(rng, d),
+    }
+}
+
+fn gen_index(rng: &mut Rng, d: u32) -> G {
+    match rng.below(10) {
+        0..=3 => G::Lit(rng.pick(&SMALLIDX).to_string()),
+        4 | 5 => G::Neg(Box::new(G::Lit(rng.pick(&SMALLIDX).to_string()))),
+        6 => G::Lit(rng.pick(&["\"a\"", "\"b\"", "\"zz\""]).to_string()),
+        7 => G::Lit(rng.pick(&EQUIV).to_string()),
+        _ => gen(rng, d.min(1)),
+    }
+}
+
+fn gen_bound(rng: &mut Rng, d: u32) -> Option<Box<G>> {
+    match rng.below(10) {
+        0..=2 => None,
+        3..=5 => Some(Box::new(G::Lit(rng.pick(&SMALLIDX).to_string()))),
+        6 | 7 => Some(Box::new(G::Neg(Box::new(G::Lit(rng.pick(&SMALLIDX).to_string()))))),
+        8 => Some(Box::new(G::Lit("none".into()))),
+        _ => Some(Box::new(gen(rng, d.min(1)))),
+    }
+}
+
+/// productions that are never folded but sit between constants: item/attribute access, slices,
+/// conditional expressions, filters and tests
+fn gen_unfolded(rng: &mut Rng, d: u32) -> G {
+    match rng.below(26) {
+        0..=3 => G::GetItem(Box::new(gen_container(rng, d)), Box::new(gen_index(rng, d))),
+        4 => G::GetAttr(Box::new(if rng.chance(2, 3) { G::Lit(rng.pick(&["{\"a\": 1}", "{\"b\": 1, \"a\": 2}", "{}"]).to_string()) } else { gen_container(rng, d) }), *rng.pick(&ATTRS)),
+        5..=7 => {
+            let z = if rng.chance(1, 2) { None } else { gen_bound(rng, d) };
+            G::Slice(Box::new(gen_container(rng, d)), gen_bound(rng, d), gen_bound(rng, d), z)
+        }
+        8..=11 => {
+            let f = if rng.chance(2, 3) { Some(Box::new(gen(rng, d))) } else { None };
+            G::If(Box::new(gen(rng, d)), Box::new(gen(rng, d)), f)
+        }
+        12..=14 => {
+            let mut args = vec![gen(rng, d.min(2))];
+            if rng.chance(1, 3) {
+                args.push(if rng.chance(2, 3) { G::Lit(rng.pick(&["true", "false", "1", "0"]).to_string()) } else { gen(rng, d.min(1)) });
+            }
+            if rng.chance(1, 8) {
+                args.clear();
+            }
+            G::Filt("default", Box::new(gen(rng, d)), args, vec![])
+        }
+        15 | 16 => G::Filt(*rng.pick(&["length", "abs", "first", "length", "abs", "first", "list", "string", "list", "string", "string", "upper", "int", "round"]), Box::new(if rng.chance(1, 2) { gen_container(rng, d) } else { gen(rng, d) }), vec![], vec![]),
+        17..=19 => G::Test("divisibleby", rng.chance(1, 5), Box::new(gen(rng, d)), vec![if rng.chance(1, 2) { G::Lit(rng.pick(&["0", "1", "2", "3", "2.0", "0.5", "0.0"]).to_string()) } else { gen(rng, d.min(1)) }]),
+        20..=22 => G::Test(*rng.pick(&["defined", "none", "odd", "even", "defined", "none", "odd", "even", "string", "number", "integer", "float", "sequence"]), rng.chance(1, 4), Box::new(gen(rng, d)), vec![]),
+        _ => G::Test(*rng.pick(&["eq", "lt", "in"]), rng.chance(1, 4), Box::new(gen_cmp_operand(rng, d)), vec![gen_cmp_operand(rng, d.min(1))]),
     }
 }
 
@@ -755,8 +898,8 @@ fn emit(g: &G, out: &mut String, spans: &mut Vec<(usize, usize)>) {
             out.push(')');
         }
         G::Neg(a) => {
-            // `-kw(..)` parses as `(-kw)(..)`: keep the call an operand of the negation
-            let wrap = matches!(**a, G::Call(..));
+            // `-kw(..)` parses as `(-kw)(..)`, `-x[0]` as `(-x)[0]`: keep the postfix form an operand of the negation
+            let wrap = matches!(**a, G::Call(..) | G::GetItem(..) | G::GetAttr(..) | G::Slice(..));
             out.push_str(if wrap { "(-(" } else { "(-" });
             emit(a, out, spans);
             out.push_str(if wrap { "))" } else { ")" });
@@ -787,15 +930,167 @@ fn emit(g: &G, out: &mut String, spans: &mut Vec<(usize, usize)>) {
             emit_kws(pos.is_empty(), kws, out, spans);
             out.push(')');
         }
-        G::Filt(a, kws) => {
+        G::Filt(name, a, args, kws) => {
             out.push('(');
             emit(a, out, spans);
-            out.push_str("|kwf(");
-            emit_kws(true, kws, out, spans);
-            out.push_str("))");
+            out.push('|');
+            out.push_str(name);
+            if !args.is_empty() || !kws.is_empty() {
+                out.push('(');
+                emit_list(args, out, spans);
+                emit_kws(args.is_empty(), kws, out, spans);
+                out.push(')');
+            }
+            out.push(')');
+        }
+        G::Test(name, negated, a, args) => {
+            out.push('(');
+            emit(a, out, spans);
+            out.push_str(if *negated { " is not " } else { " is " });
+            out.push_str(name);
+            if !args.is_empty() {
+                out.push('(');
+                emit_list(args, out, spans);
+                out.push(')');
+            }
+            out.push(')');
+        }
+        G::GetItem(a, i) => {
+            emit_postfix_operand(a, out, spans);
+            out.push('[');
+            emit(i, out, spans);
+            out.push(']');
+        }
+        G::GetAttr(a, name) => {
+            emit_postfix_operand(a, out, spans);
+            out.push('.');
+            out.push_str(name);
+        }
+        G::Slice(a, x, y, z) => {
+            emit_postfix_operand(a, out, spans);
+            out.push('[');
+            if let Some(x) = x {
+                emit(x, out, spans);
+            }
+            out.push(':');
+            if let Some(y) = y {
+                emit(y, out, spans);
+            }
+            if let Some(z) = z {
+                out.push(':');
+                emit(z, out, spans);
+            }
+            out.push(']');
+        }
+        G::If(t, c, f) => {
+            out.push('(');
+            emit(t, out, spans);
+            out.push_str(" if ");
+            emit(c, out, spans);
+            if let Some(f) = f {
+                out.push_str(" else ");
+                emit(f, out, spans);
+            }
+            out.push(')');
         }
     }
 }
+
+/// the operand of `[..]` / `.name`: numbers are parenthesised (`1.a` would lex differently), a call
+/// is parenthesised so that the subscript applies to its result in every variant
+fn emit_postfix_operand(a: &G, out: &mut String, spans: &mut Vec<(usize, usize)>) {
+    let wrap = match a {
+        G::Lit(s) => s.as_bytes()[0].is_ascii_digit(),
+        G::Var(_) | G::List(_) | G::Tuple(_) | G::Map(_) => false,
+        G::GetItem(..) | G::GetAttr(..) | G::Slice(..) => false,
+        G::Call(..) => false,
+        _ => false, // every other production is parenthesised by `emit`
+    };
+    if wrap {
+        out.push('(');
+    }
+    emit(a, out, spans);
+    if wrap {
+        out.push(')');
+    }
+}
+
+// ------------------------------------------------------------------------------------ statements
+const TNAMES: [&str; 6] = ["\"inc_a.txt\"", "\"inc_b.txt\"", "\"missing.txt\"", "[\"missing.txt\", \"inc_b.txt\"]", "[\"inc_a.txt\", \"inc_b.txt\"]", "[]"];
+const ESCAPES: [&str; 6] = ["true", "false", "\"html\"", "\"none\"", "\"json\"", "none"];
+
+/// A template whose statement heads, filter arguments, macro defaults, include/extends/import
+/// targets … contain literal expressions; returns the source and the spans of the literal leaves.
+fn gen_stmt(rng: &mut Rng) -> (String, Vec<(usize, usize)>) {
+    let mut o = String::new();
+    let mut sp = vec![];
+    macro_rules! t {
+        ($s:expr) => {
+            o.push_str($s)
+        };
+    }
+    macro_rules! e {
+        ($g:expr) => {{
+            let g = $g;
+            emit(&g, &mut o, &mut sp)
+        }};
+    }
+    let d = 1 + rng.below(3) as u32;
+    match rng.below(27) {
+        0 => { t!("{% if "); e!(gen(rng, d)); t!(" %}yes{% else %}no{% endif %}"); }
+        1 => { t!("{% if "); e!(gen(rng, d)); t!(" %}a{% elif "); e!(gen(rng, d)); t!(" %}b{% else %}c{% endif %}"); }
+        2 => { t!("{% for x in "); e!(gen_container(rng, d)); t!(" %}[{{ x }}]{% else %}empty{% endfor %}"); }
+        3 => { t!("{% for x in "); e!(gen_container(rng, d)); t!(" if "); e!(gen(rng, d)); t!(" %}{{ loop.index }}:{{ x }};{% else %}-{% endfor %}"); }
+        4 => { t!("{% set x = "); e!(gen(rng, d)); t!(" %}{{ x }}|{{ x }}"); }
+        5 => { t!("{% set a, b = ("); e!(gen(rng, d)); t!(", "); e!(gen(rng, d)); t!(") %}{{ a }}/{{ b }}"); }
+        6 => { t!("{% with a = "); e!(gen(rng, d)); t!(", b = "); e!(gen(rng, d)); t!(" %}{{ a }}{{ b }}{% endwith %}"); }
+        7 => {
+            t!("{% macro m(a="); e!(gen(rng, d)); t!(", b="); e!(gen_lit(rng)); t!(") %}<{{ a }}|{{ b }}>{% endmacro %}{{ m() }}{{ m(");
+            e!(gen(rng, d)); t!(") }}{{ m(b="); e!(gen_lit(rng)); t!(") }}");
+        }
+        8 => { t!("{% include "); e!(G::Lit(rng.pick(&TNAMES).to_string())); t!(if rng.chance(1, 2) { " ignore missing %}" } else { " %}" }); t!("."); }
+        9 => { t!("{{ u|default("); e!(gen(rng, d)); t!(") }}{{ "); e!(gen(rng, d)); t!("|default("); e!(gen_lit(rng)); t!(", true) }}"); }
+        10 => { t!("{% filter upper %}{{ "); e!(gen(rng, d)); t!(" }}x{% endfilter %}"); }
+        11 => { t!("{% autoescape "); e!(G::Lit(rng.pick(&ESCAPES).to_string())); t!(" %}{{ \"<b>\" ~ "); e!(gen(rng, d)); t!(" }}{% endautoescape %}"); }
+        12 => { t!("{% set x %}{{ "); e!(gen(rng, d)); t!(" }}{% endset %}{{ x|length }}"); }
+        13 => { t!("{% for k, v in "); e!(gen_dup_map(rng, d)); t!("|items %}{{ k }}={{ v }};{% endfor %}"); }
+        14 => { t!("{% for x in "); e!(gen_container(rng, d)); t!(" %}{% if x == "); e!(G::Lit(rng.pick(&EQUIV).to_string())); t!(" %}hit{% break %}{% endif %}{{ x }},{% endfor %}"); }
+        15 => { t!("{% for x in "); e!(G::Lit(rng.pick(&["[1, 2]", "[0]", "(1, 2)", "[1.0, 2]"]).to_string())); t!(" %}{{ \"d\" if x is divisibleby("); e!(gen(rng, d.min(2))); t!(") else \"n\" }}{% endfor %}"); }
+        16 => { t!("{% do kw(ka="); e!(gen(rng, d)); t!(") %}done"); }
+        17 => { t!("{% extends "); e!(G::Lit(rng.pick(&["\"base.txt\"", "\"missing.txt\""]).to_string())); t!(" %}{% block b %}{{ "); e!(gen(rng, d)); t!(" }}{% endblock %}"); }
+        18 => { t!("{% import "); e!(G::Lit("\"mac.txt\"".to_string())); t!(" as m %}{{ m.f("); e!(gen(rng, d)); t!(") }}{{ m.f(1, y="); e!(gen_lit(rng)); t!(") }}"); }
+        19 => { t!("{% from "); e!(G::Lit("\"mac.txt\"".to_string())); t!(" import f, g %}{{ f("); e!(gen(rng, d)); t!(") }}{{ g }}"); }
+        20 => { t!("{% set ns = namespace(a="); e!(gen_lit(rng)); t!(") %}{% set ns.a = "); e!(gen(rng, d)); t!(" %}{{ ns.a }}"); }
+        21 => { t!("{{ \"%s-%s\"|format("); e!(gen_lit(rng)); t!(", "); e!(gen(rng, d.min(2))); t!(") }}{{ ["); e!(gen_lit(rng)); t!(", "); e!(gen_lit(rng)); t!("]|join("); e!(G::Lit(rng.pick(&STRS).to_string())); t!(") }}"); }
+        22 => { t!("{{ range("); e!(G::Lit(rng.pick(&SMALLIDX).to_string())); t!(", "); e!(G::Lit(rng.pick(&SMALLIDX).to_string())); t!(")|list }}{{ dict(ka="); e!(gen_lit(rng)); t!(", kb="); e!(gen(rng, d.min(2))); t!(") }}"); }
+        23 => { t!("{% if "); e!(gen(rng, d)); t!(" %}{% set x = "); e!(gen_lit(rng)); t!(" %}{% endif %}{{ x }}"); }
+        24 => { t!("{% for x in "); e!(gen_container(rng, d)); t!(" %}{{ loop.cycle("); e!(gen_lit(rng)); t!(", "); e!(gen_lit(rng)); t!(") }}{% endfor %}"); }
+        25 => { t!("{{ "); e!(gen_container(rng, d)); t!("|sort|join(\",\") }}{{ "); e!(gen_container(rng, d)); t!("|unique|list }}{{ "); e!(gen_container(rng, d)); t!("|map(\"string\")|list }}"); }
+        _ => { t!("{% macro wrap() %}<{{ caller() }}>{% endmacro %}{% call(z="); e!(gen_lit(rng)); t!(") wrap() %}{{ z }}{% endcall %}"); }
+    }
+    (o, sp)
+}
+
+/// hand-written statement seeds (backticks delimit the literal leaves)
+const STMT_SEEDS: &[&str] = &[
+    "{% if `0` and `1` %}yes{% else %}no{% endif %}", "{% if `3` < `2` < `5` %}yes{% else %}no{% endif %}",
+    "{% if `1` // `0` %}yes{% endif %}", "{% if `false` %}{{ `1` // `0` }}{% endif %}ok", "{% for x in [`1`, `2`] %}{{ x }}{% endfor %}",
+    "{% for x in `[1, 2]` %}{{ x }}{% endfor %}", "{% for x in `\"ab\"` %}{{ x }},{% endfor %}", "{% for x in `{\"a\": 1, \"a\": 2}` %}{{ x }}{% endfor %}",
+    "{% for x in `3` %}{{ x }}{% endfor %}", "{% for x in `none` %}{{ x }}{% else %}e{% endfor %}", "{% set x = `0` or `\"\"` %}[{{ x }}]",
+    "{% set x = {`\"a\"`: `1`, `\"b\"`: `5`, `\"a\"`: `2`} %}{{ x }}", "{% macro m(a=`1`, b=`\"x\"`) %}{{ a }}{{ b }}{% endmacro %}{{ m() }}{{ m(`2`) }}",
+    "{% macro m(a=`0` and `1`) %}{{ a }}{% endmacro %}{{ m() }}", "{% macro m(a=`1` // `0`) %}{{ a }}{% endmacro %}ok", "{% macro m(a=`1` // `0`) %}{{ a }}{% endmacro %}{{ m() }}",
+    "{% include `\"inc_a.txt\"` %}", "{% include `\"missing.txt\"` %}", "{% include `\"missing.txt\"` ignore missing %}.", "{% include [`\"missing.txt\"`, `\"inc_b.txt\"`] %}",
+    "{% include `[\"missing.txt\", \"inc_b.txt\"]` %}", "{% extends `\"base.txt\"` %}{% block b %}{{ `1` and `0` }}{% endblock %}",
+    "{{ u|default(`1`) }}", "{{ u|default(`0` and `1`) }}", "{{ `\"\"`|default(`\"d\"`, `true`) }}", "{{ `0`|default(`5`, `1`) }}",
+    "{% autoescape `true` %}{{ `\"<b>\"` }}{% endautoescape %}", "{% autoescape `\"html\"` %}{{ `\"<\"` ~ `1` }}{% endautoescape %}", "{% autoescape `5` %}x{% endautoescape %}",
+    "{% with a = `1` + `1`, b = `\"x\"` * `2` %}{{ a }}{{ b }}{% endwith %}", "{% set a, b = (`1`, `2`) %}{{ a }}{{ b }}", "{% set a, b = `(1, 2)` %}{{ a }}{{ b }}",
+    "{% set a, b = `[1]` %}{{ a }}", "{{ dict(ka=`1`, kb=`2`, ka=`3`) }}", "{{ range(`3`)|list }}", "{% do kw(ka=`1` // `0`) %}x",
+    "{% for x in [`1`, `2`, `3`] if x > `1` %}{{ x }}{% endfor %}", "{% for x in [`1`, `2`] %}{{ loop.cycle(`\"a\"`, `\"b\"`) }}{% endfor %}",
+    "{% import `\"mac.txt\"` as m %}{{ m.f(`1`, y=`2`) }}", "{% from `\"mac.txt\"` import f %}{{ f(`0` and `1`) }}", "{{ `\"%s|%s\"`|format(`1`, `1.5`) }}",
+    "{{ [`3`, `1`, `2`]|sort }}", "{{ `[3, 1, 2]`|sort|join(`\"-\"`) }}", "{{ [`1`, `1.0`, `true`]|unique|list }}", "{% if u %}a{% else %}b{% endif %}{{ `1` if u }}",
+    "{{ `\"a\"` if `0` }}|{{ (`\"a\"` if `0`) is defined }}", "{% set x %}{{ `1.5` }}{% endset %}{{ x }}", "{% filter upper %}{{ `\"abc\"` ~ `1` }}{% endfilter %}",
+    "{% macro wrap() %}<{{ caller() }}>{% endmacro %}{% call(z=`5`) wrap() %}{{ z }}{% endcall %}",
+];
 
 /// hand-written seeds; literal leaves are delimited by backticks
 const SEEDS: &[&str] = &[
@@ -835,6 +1130,26 @@ const SEEDS: &[&str] = &[
     "`1.0` in [`1`, `1`]", "`true` in (`1`, `1`)", "`1` in [`1.0`, `true`]", "`1` in (`true`,)", "`\"a\"` in [`\"a\"`, `'a'`]",
     "`2` not in [`2.0`, `2`]", "[`1`, `1.0`] == [`1.0`, `1`]", "(`1`, `1`) == (`true`, `1.0`)", "`1` in `[1, 1]`", "`1.0` in `(1, 1)`",
     "`0` in [`false`, `0.0`] in [`true`]", "`1` in {`1`: `2`, `1.0`: `3`}", "`true` in {`1.0`: `2`}",
+    "`[1, 2]`[`0`]", "[`1`, `2`][`0`]", "[`1`, `2`][-`1`]", "[`1`, `2`][`5`]", "[`1`, `2`][`5`][`0`]", "`\"abc\"`[`1`]", "`\"abc\"`[-`1`]",
+    "`{\"a\": 1}`.a", "`{\"a\": 1}`.b", "`{\"a\": 1}`.b.c", "{`\"a\"`: `1`}[`\"a\"`]", "`{1: \"x\"}`[`1.0`]", "`{1: \"x\"}`[`true`]", "`[1, 2]`[`1.0`]",
+    "`[1, 2]`[`true`]", "`5`[`0`]", "`none`[`0`]", "u[`0`]", "u.a", "u.a.b", "(`1`, `2`)[`1`]", "`[1, 2, 3, 4]`[`1`:`3`]", "`[1, 2, 3, 4]`[:-`1`]",
+    "`[1, 2, 3, 4]`[::-`1`]", "`[1, 2, 3, 4]`[`3`:`0`:-`2`]", "`\"abcdef\"`[`1`::`2`]", "`\"abc\"`[::`0`]", "`(1, 2, 3)`[`1`:]", "`5`[`1`:]", "u[`1`:]",
+    "`none`[`1`:]", "`[1, 2]`[`\"a\"`:]", "`{\"a\": 1}`[`0`:]", "`[1, 2, 3]`[`none`:`2`]", "`1` if `0` else `2`", "`1` if `1` else `2`", "`1` if `0`",
+    "(`1` if `0`) is defined", "(`1` if `0`) ~ `\"x\"`", "[`1` if `0`]", "(`1` if `0`) == u", "not (`1` if `0`)", "`1` if u else `2`", "`1` // `0` if `0` else `2`",
+    "`2` if `1` else `1` // `0`", "(`0` and `1`) if (`1` and `0`) else (`0` or `\"\"`)", "`0`|default(`5`)", "u|default(`5`)", "u|default", "`\"\"`|default(`5`, `true`)",
+    "`0`|default(`5`, `1`)", "`0`|default(`5`, u)", "(`1` if `0`)|default(`5`)", "`0`|default(`1`, `2`, `3`)", "`[1, 2]`|length", "`\"abc\"`|length", "`5`|length",
+    "`{\"a\": 1}`|length", "-`5`|abs", "(-`5`)|abs", "(-`1.5`)|abs", "`true`|abs", "`\"a\"`|abs", "`[3, 4]`|first", "`\"xy\"`|first", "`[]`|first", "`5`|first",
+    "`1.5`|string", "`[1, \"a\"]`|string", "u|string", "`\"ab\"`|list", "`{\"b\": 1, \"a\": 2}`|list", "`5`|list", "u|list", "`none`|list",
+    "`6` is divisibleby(`3`)", "`6` is divisibleby(`0`)", "`6` is divisibleby(`4`)", "`6.0` is divisibleby(`3`)", "`6` is divisibleby(`1.5`)", "`\"a\"` is divisibleby(`1`)",
+    "`6` is not divisibleby(`4`)", "u is defined", "`1` is defined", "`none` is none", "`3` is odd", "`3.0` is odd", "`2` is even", "`\"a\"` is odd", "`true` is odd",
+    "`1` is number", "`1.5` is float", "`1` is integer", "`\"a\"` is string", "`1` is eq(`1.0`)", "`1` is lt(`true`)", "`1` is in(`[1, 2]`)", "`1` is in(u)", "`1` is in(`5`)",
+    "`1` is nosuchtest", "`1`|nosuchfilter", "nosuchfn(`1`)", "`\"a\\\"b\"` ~ `1`", "[`\"a\\\"b\"`, `\"it's\"`, `'it\\'s'`] ~ `\"\"`", "[`\"line\\nbreak\"`] ~ `\"\\u00e9\\u0001\"`",
+    "{`\"back\\\\slash\"`: `\"tab\\t\"`} ~ `1`", "`1.5` ~ `1e100`", "[`1.5`, `1e100`, `1e-7`, `0.1`] ~ `\"\"`", "`0.1` + `0.2` ~ `\"\"`", "(`0.1` + `0.2`) ~ `\"\"`", "`1e16` ~ [`1e16`, `1e15`]",
+    "`5e-324` ~ [`5e-324`]", "`1` / `3` ~ `\"\"`", "(`1` / `3`) ~ `\"\"`", "(`2` ** `0.5`) ~ `\"\"`", "`1.5` ** `2`", "`7.5` // `2`", "-`7.5` // `2`", "`7.5` % `2`", "-`7.5` % `2`",
+    "`1.0` // `0.1`", "`1.0` % `0.1`", "`1e308` * `10` - `1e308` * `10`", "`1` in `\"a1.5\"`", "`1.5` in `\"a1.5\"`", "`9007199254740993` + `0.5`",
+    "`170141183460469231731687303715884105728` + `1`", "`170141183460469231731687303715884105728` == `170141183460469231731687303715884105728`",
+    "`170141183460469231731687303715884105728` < `340282366920938463463374607431768211455`", "`170141183460469231731687303715884105728` + `0.5`",
+    "(-`170141183460469231731687303715884105727` - `1`) % -`1`", "(-`170141183460469231731687303715884105727` - `1`)|abs",
     "{`1`: `2`, `1`: `3`}", "{`1`: `2`, `1.0`: `3`}", "{`1`: `2`, `true`: `3`}", "{`\"a\"`: `1`, `\"a\"`: `2`}",
     "{`[1]`: `2`}", "{[`1`]: `2`}", "{`{}`: `2`}", "{`none`: `1`}", "{`2`: `1`, `1`: `2`}",
     "{`\"b\"`: `1`, `\"a\"`: `2`}", "{`1.5`: `1`}", "{`(1, 2)`: `3`}", "[`1`, `\"a\"`, `none`, `true`, `1.5`]",
@@ -869,7 +1184,7 @@ fn seed_case(mode: &str, s: &str) -> Case {
             src.push(ch);
         }
     }
-    Case { mode: mode.into(), src, spans }
+    Case { mode: mode.into(), src, spans, tmpl: false }
 }
 
 const MODES: [&str; 4] = ["lenient", "strict", "chainable", "semistrict"];
@@ -904,7 +1219,26 @@ fn main() {
                     continue;
                 }
                 let mode = *rng.pick(&MODES);
-                writeln!(out, "{}", run_case(&Case { mode: mode.into(), src, spans }, &mut rng)).unwrap();
+                writeln!(out, "{}", run_case(&Case { mode: mode.into(), src, spans, tmpl: false }, &mut rng)).unwrap();
+            }
+            // the statement stream: literals in statement heads, defaults, include targets, …
+            for (i, s) in STMT_SEEDS.iter().enumerate() {
+                let uses_u = s.contains(" u ") || s.contains("u|") || s.contains("if u");
+                for (j, m) in MODES.iter().enumerate() {
+                    if uses_u || j == i % 4 {
+                        let mut c = seed_case(m, s);
+                        c.tmpl = true;
+                        writeln!(out, "{}", run_case(&c, &mut rng)).unwrap();
+                    }
+                }
+            }
+            for _ in 0..n / 3 {
+                let (src, spans) = gen_stmt(&mut rng);
+                if spans.len() > 40 || src.len() > 900 {
+                    continue;
+                }
+                let mode = *rng.pick(&MODES);
+                writeln!(out, "{}", run_case(&Case { mode: mode.into(), src, spans, tmpl: true }, &mut rng)).unwrap();
             }
         }
         Some("one") => {
@@ -921,7 +1255,8 @@ fn main() {
                     })
                     .collect()
             };
-            let c = Case { mode, src, spans };
+            let tmpl = args.get(5).map_or(false, |t| t == "t");
+            let c = Case { mode, src, spans, tmpl };
             eprintln!("source: {}", c.src);
             writeln!(out, "{}", run_case(&c, &mut rng)).unwrap();
         }
